@@ -1,5 +1,169 @@
+(* C04 - property theorems only (exactly the supplied part is calculated, unaffected by the rest).
+   Each is closed by [exact] of a lemma of ProofsConn.v / ProofsReduce.v about the hand-written models of
+   C04/Model.v, which tools/props/c04.py ties to /repo by exact correspondences on all 2^k flag patterns. *)
 From Coq Require Import ZArith List Bool Lia.
-From PP Require Import C06.Model C04.Model.
+From PP Require Import C06.Model C04.Model C04.ProofsConn C04.ProofsReduce.
 Import ListNotations.
-Theorem placeholder : all_false [] = true. Proof. reflexivity. Qed.
-Print Assumptions placeholder.
+Open Scope nat_scope.
+
+(* 1a. nodes: the executable search (n breadth-first waves from the slack nodes) marks node i iff i is reachable:
+   HReach = in-service pressure-fixed start node, or reached over an in-service, non flow-return-connect branch
+   (both directions if undirected, from -> to only if DIRECTED) - for every branch list *)
+Theorem connectivity_iff_reach : forall n bs nact slack,
+  (forall b, In b bs -> b_from b < n /\ b_to b < n) ->
+  forall i, nthb (fst (search_hyd n bs (map b_active bs) nact slack)) i = true <-> HReach n bs nact slack i.
+Proof.
+  intros n bs nact slack Hwf i. rewrite search_hyd_eq. simpl fst. now apply hnc_iff_hreach.
+Qed.
+Print Assumptions connectivity_iff_reach.
+
+(* 1b. branches, incl. the post-pass that re-admits flow-return-connect branches whose both ends are reached *)
+Theorem branch_connected_iff : forall n bs nact slack,
+  (forall b, In b bs -> b_from b < n /\ b_to b < n) ->
+  exists mark : branch -> bool,
+    snd (search_hyd n bs (map b_active bs) nact slack) = map mark bs /\
+    forall b, In b bs ->
+      (mark b = true <->
+       b_active b = true /\ HReach n bs nact slack (b_from b) /\ (b_frc b = true -> HReach n bs nact slack (b_to b))).
+Proof.
+  intros n bs nact slack Hwf. exists (bmark n bs nact slack). split.
+  - now rewrite search_hyd_eq.
+  - intros b Hb. now apply bmark_iff.
+Qed.
+Print Assumptions branch_connected_iff.
+
+(* 1c. the internal ValueError of _connectivity is unreachable *)
+Theorem connectivity_consistency_check_never_fires : forall n bs nact slack,
+  (forall b, In b bs -> b_from b < n /\ b_to b < n) ->
+  forall b, In b bs -> b_active b && negb (b_frc b) = true -> b_directed b = false ->
+  nthb (hnc n bs nact slack) (b_from b) = nthb (hnc n bs nact slack) (b_to b).
+Proof. intros n bs nact slack Hwf b Hb Hl Hd. now apply undirected_ends_agree. Qed.
+Print Assumptions connectivity_consistency_check_never_fires.
+
+(* 1d. thermal search: start nodes T / GE, hydraulic masks as look-ups *)
+Theorem heat_connectivity_iff_reach : forall n bs bact nact tslack,
+  (forall b, In b bs -> b_from b < n /\ b_to b < n) ->
+  forall i, nthb (fst (search_heat n bs bact nact tslack)) i = true <->
+            Reach (tedges bs bact) (tinit n nact tslack) i.
+Proof. intros. now apply heat_nodes_iff_reach. Qed.
+Print Assumptions heat_connectivity_iff_reach.
+
+(* 2. no supplied junction (incl. the empty net) <=> the identification raises PipeflowNotConverged *)
+Theorem no_supply_fails : forall n bs nact slack,
+  (forall b, In b bs -> b_from b < n /\ b_to b < n) ->
+  (identify_hyd true n bs nact slack = None <-> (forall i, i < n -> nthb slack i && nthb nact i = false)).
+Proof. intros. now apply identify_fails_iff. Qed.
+Print Assumptions no_supply_fails.
+
+(* 3. cumsum(mask) - 1 on the marked positions: strictly increasing, onto [0,k), keeps every row *)
+Theorem reduce_is_order_preserving_bijection : forall m,
+  (forall i j, i < j -> j < length m -> nthb m i = true -> nthb m j = true -> (renum m i < renum m j)%Z)
+  /\ (forall i, i < length m -> nthb m i = true -> (0 <= renum m i < Z.of_nat (count_true m))%Z)
+  /\ (forall p, p < count_true m -> exists i, i < length m /\ nthb m i = true /\ renum m i = Z.of_nat p)
+  /\ (forall X (d : X) (xs : list X) i, length xs = length m -> i < length m -> nthb m i = true ->
+        nth (Z.to_nat (renum m i)) (select m xs) d = nth i xs d)
+  /\ (forall X (xs : list X), length xs = length m -> length (select m xs) = count_true m).
+Proof. exact renum_bijection. Qed.
+Print Assumptions reduce_is_order_preserving_bijection.
+
+(* 3b. index_active lookups of a table with pairwise different pit labels: label -> new position or -1,
+   other labels untouched *)
+Theorem index_active_lookup_correct : forall mask elm f t lookup,
+  f <= t -> t <= length mask -> length elm = length mask -> NoDup (slice f t elm) ->
+  (forall k, k < t - f ->
+     sget (index_active mask elm f t lookup) (nth (f + k) elm 0%Z) =
+     if nthb mask (f + k) then renum mask (f + k) else (-1)%Z)
+  /\ (forall l, ~ In l (slice f t elm) -> sget (index_active mask elm f t lookup) l = sget lookup l).
+Proof. exact index_active_correct. Qed.
+Print Assumptions index_active_lookup_correct.
+
+(* 3c. from_to_active: consecutive ranges whose lengths are the marked counts of the tables; a marked row of a
+   table lies inside the table's active range *)
+Theorem from_to_active_partition : forall mask fts count,
+  (forall tbl f t, In (tbl, (f, t)) fts -> f <= t /\ t <= length mask) ->
+  map fst (from_to_active mask fts count) = map fst fts
+  /\ (forall k tbl f t, nth_error fts k = Some (tbl, (f, t)) ->
+        exists c, nth_error (from_to_active mask fts count) k =
+                  Some (tbl, (c, (c + Z.of_nat (count_true (slice f t mask)))%Z))
+                  /\ c = (count + sumz (map (fun x => Z.of_nat (count_true (slice (fst (snd x)) (snd (snd x)) mask)))
+                                         (firstn k fts)))%Z).
+Proof. exact from_to_active_ranges. Qed.
+Print Assumptions from_to_active_partition.
+
+Theorem marked_row_inside_active_range : forall mask f t i,
+  f <= i -> i < t -> t <= length mask -> nthb mask i = true ->
+  (Z.of_nat (rank mask f) <= renum mask i < Z.of_nat (rank mask f) + Z.of_nat (count_true (slice f t mask)))%Z.
+Proof. exact marked_row_in_active_range. Qed.
+Print Assumptions marked_row_inside_active_range.
+
+(* 4. the np.all shortcut (copy_lookups, no renumbering) equals the general path *)
+Theorem reduce_all_true_is_copy : forall m, all_true m = true ->
+  (forall i, i < length m -> renum m i = Z.of_nat i)
+  /\ (forall X (xs : list X), length xs = length m -> select m xs = xs).
+Proof. exact ProofsReduce.reduce_all_true_is_copy. Qed.
+Print Assumptions reduce_all_true_is_copy.
+
+Theorem reduce_from_to_paths_agree : forall nmask bmask bs,
+  (forall b, In b bs -> b_from b < length nmask /\ b_to b < length nmask) ->
+  reduce_ft nmask bmask bs = map (fun b => (renum nmask (b_from b), renum nmask (b_to b))) (select bmask bs).
+Proof. exact reduce_ft_general. Qed.
+Print Assumptions reduce_from_to_paths_agree.
+
+(* 6. a branch kept by the search keeps both ends: the renumbered FROM_NODE / TO_NODE are inside the active node
+   pit and denote the same node rows as before *)
+Theorem reduce_keeps_branch_ends : forall n bs nact slack,
+  (forall b, In b bs -> b_from b < n /\ b_to b < n) ->
+  let nmask := hnc n bs nact slack in
+  forall b X (d : X) (nodes : list X), In b bs -> bmark n bs nact slack b = true -> length nodes = n ->
+    (0 <= renum nmask (b_from b) < Z.of_nat (count_true nmask))%Z
+    /\ (0 <= renum nmask (b_to b) < Z.of_nat (count_true nmask))%Z
+    /\ nth (Z.to_nat (renum nmask (b_from b))) (select nmask nodes) d = nth (b_from b) nodes d
+    /\ nth (Z.to_nat (renum nmask (b_to b))) (select nmask nodes) d = nth (b_to b) nodes d.
+Proof. exact ProofsReduce.reduce_keeps_branch_ends. Qed.
+Print Assumptions reduce_keeps_branch_ends.
+
+(* 5. reduced pit = pit of the net with the unmarked rows deleted (junction table + any number of one-section
+   branch tables; structural columns FROM_NODE, TO_NODE, ACTIVE, DIRECTED, FLOW_RETURN_CONNECT) *)
+Theorem reduce_eq_delete : forall js tabs nmask bmask,
+  NoDup js -> length nmask = length js -> length bmask = length (concat tabs) ->
+  (forall r, In r (select bmask (concat tabs)) ->
+     exists kf kt, kf < length js /\ kt < length js /\ nthb nmask kf = true /\ nthb nmask kt = true
+                   /\ r_from r = nth kf js 0%Z /\ r_to r = nth kt js 0%Z) ->
+  map ends (mk_branches (select nmask js) (select_tabs bmask tabs)) =
+  map (fun bf => (fst (snd bf), snd (snd bf), (b_active (fst bf), b_directed (fst bf), b_frc (fst bf))))
+      (combine (select bmask (mk_branches js tabs)) (reduce_ft nmask bmask (mk_branches js tabs))).
+Proof. exact ProofsReduce.reduce_eq_delete. Qed.
+Print Assumptions reduce_eq_delete.
+
+(* 7. write-back: NaN exactly at the unmarked positions, the active value of the same row elsewhere *)
+Theorem writeback_nan_pattern : forall V (d : V) mask (active : list V), length active = count_true mask ->
+  length (writeback mask active) = length mask /\
+  forall i, i < length mask ->
+    nth i (writeback mask active) None = if nthb mask i then Some (nth (rank mask i) active d) else None.
+Proof. intros V d mask. exact (ProofsReduce.writeback_nan_pattern d mask). Qed.
+Print Assumptions writeback_nan_pattern.
+
+(* non-vacuity: a meshed net with a parallel branch, an outage, a directed branch against the supply direction,
+   a flow-return-connect branch to an otherwise unconnected node, and an island *)
+Definition ex_bs : list branch :=
+  [ {| b_from := 0; b_to := 1; b_active := true; b_directed := false; b_frc := false |};
+    {| b_from := 1; b_to := 2; b_active := true; b_directed := false; b_frc := false |};
+    {| b_from := 0; b_to := 2; b_active := true; b_directed := false; b_frc := false |};
+    {| b_from := 1; b_to := 2; b_active := false; b_directed := false; b_frc := false |};
+    {| b_from := 3; b_to := 2; b_active := true; b_directed := true; b_frc := false |};
+    {| b_from := 2; b_to := 4; b_active := true; b_directed := false; b_frc := true |};
+    {| b_from := 5; b_to := 6; b_active := true; b_directed := false; b_frc := false |};
+    {| b_from := 2; b_to := 1; b_active := true; b_directed := false; b_frc := true |} ].
+
+Example connectivity_example :
+  (forall b, In b ex_bs -> b_from b < 7 /\ b_to b < 7)
+  /\ identify_hyd true 7 ex_bs [true; true; true; true; true; true; true] [true; false; false; false; false; false; false]
+     = Some ([true; true; true; false; false; false; false], [true; true; true; false; false; false; false; true])
+  /\ reduce_ft [true; true; true; false; false; false; false] [true; true; true; false; false; false; false; true] ex_bs
+     = [(0, 1); (1, 2); (0, 2); (2, 1)]%Z
+  /\ identify_hyd true 7 ex_bs [false; true; true; true; true; true; true] [true; false; false; false; false; false; false]
+     = None.
+Proof.
+  split; [|vm_compute; auto].
+  intros b Hb. simpl in Hb. repeat (destruct Hb as [<-|Hb]; [simpl; lia|]). inversion Hb.
+Qed.
